@@ -663,3 +663,34 @@ M('c08-qs-selfadd-raw-key', 'C08', 'R4', _MISC, "        query_str += encode_val
   "        query_str = query_str + (k + '=' + v + '&')\n")
 M('c08-qs-selfadd-semicolon', 'C08', 'R4', _MISC, "        query_str += encode_value(k) + '=' + v + '&'\n",
   "        query_str = query_str + (encode_value(k) + '=' + v + ';')\n")
+# R3 (d): the missing-parameter arm of a delegating getter decided by the truthiness of the delegate's result although a
+# PRESENT parameter can give a falsy one (get_param: '' for `?x=`) -- seed s11-c08-1 and its twin in the datetime getter
+_JSON_NONE = "        if param_value is None:\n            return default\n\n        handler, _, _ ="
+_DT_NONE = "        if param_value is None:\n            return default\n\n        try:\n            date_time = strptime("
+M('c08-json-blank-read-as-missing', 'C08', 'R3', _REQ, _JSON_NONE, _JSON_NONE.replace('param_value is None', 'not param_value'))
+M('c08-datetime-blank-read-as-missing', 'C08', 'R3', _REQ, _DT_NONE, _DT_NONE.replace('param_value is None', 'not param_value'))
+M('c08-json-truthy-else-default', 'C08', 'R3', _REQ, _JSON_NONE,
+  "        if param_value:\n            pass\n        else:\n            return default\n\n        handler, _, _ =")
+M('c08-json-none-or-blank-as-missing', 'C08', 'R3', _REQ, _JSON_NONE, _JSON_NONE.replace('param_value is None', "param_value in (None, '')"))
+# R3 (f): a getter writes the request's parameter mapping -- seed s11-c08-2 and variants (separate statement, the scalar
+# getter collapsing a repeated parameter, a mapping method on the attribute itself)
+_WRAP = "            if not isinstance(items, list):\n                items = [items]\n"
+M('c08-list-getter-memoises-wrapped-value', 'C08', 'R3', _REQ, _WRAP, _WRAP.replace('items = [items]', 'items = params[name] = [items]'))
+M('c08-list-getter-writes-back-separately', 'C08', 'R3', _REQ, _WRAP, _WRAP + "                params[name] = items\n")
+M('c08-list-getter-updates-params-attr', 'C08', 'R3', _REQ, _WRAP, _WRAP + "                self._params.update({name: items})\n")
+M('c08-get-param-collapses-repeated', 'C08', 'R3', _REQ, "            if isinstance(param, list):\n                param = param[-1]\n\n            if store is not None:\n                store[name] = param\n",
+  "            if isinstance(param, list):\n                param = params[name] = param[-1]\n\n            if store is not None:\n                store[name] = param\n")
+M('c08-get-param-consumes-entry', 'C08', 'R3', _REQ, "            param = params[name]\n            if isinstance(param, list):\n                param = param[-1]\n\n            if store is not None:\n                store[name] = param\n",
+  "            param = params[name]\n            del params[name]\n            if isinstance(param, list):\n                param = param[-1]\n\n            if store is not None:\n                store[name] = param\n")
+# the same confusion in a direct getter: the presence test mixed with the truthiness of the stored value (`?id=` -> default)
+_UUID_HEAD = ("                be converted to a ``UUID``.\n        \"\"\"\n\n        params = self._params\n\n        # PERF: Use if..in since it is a good all-around performer; we don't\n"
+              "        #       know how likely params are to be specified by clients.\n        if name in params:\n")
+M('c08-uuid-blank-read-as-missing', 'C08', 'R3', _REQ, _UUID_HEAD, _UUID_HEAD.replace('if name in params:', 'if params.get(name):'))
+# R17: another store of a possibly empty list (F25 is the known one: fresh key, csv, keep_blank=False) -- the blank filter
+# also under keep_blank=True (`?a=,` -> [] although blanks are to be kept); the repeated-key branch storing the new
+# elements alone (`?a=1&a=,` -> {'a': []}, and the earlier occurrence is lost)
+M('c08-csv-filter-under-keep-blank-too', 'C08', 'R17', _URI, "                    params[k] = [decode(element) for element in values]\n",
+  "                    params[k] = [decode(element) for element in values if element]\n")
+M('c08-repeated-key-stores-additional-alone', 'C08', 'R17', _URI,
+  "                    additional_values.insert(0, old_value)\n                    params[k] = additional_values\n",
+  "                    params[k] = additional_values\n")
